@@ -199,6 +199,8 @@ where
     let ty = E::ty();
     let rounds = ctx.n(40, 400);
     let mut plan: Vec<(usize, u64)> = lengths(ctx).into_iter().map(|l| (l, rounds)).collect();
+    // one list whose count needs three varint bytes for every element type
+    plan.push((8192, 1));
     if ty.may_encode_empty() {
         // elements with an empty encoding cost nothing: counts that need three varint bytes, once each
         plan.extend([(65_535usize, 1u64), (65_536, 1), (65_537, 1), (70_000, 1)]);
